@@ -365,16 +365,16 @@ func (ps *cparser) mkCall(name string, args []Expr) Expr {
 		}
 		return EQuant{All: name == "all", Var: id.Name, Lo: args[1], Hi: args[2], Body: args[3]}
 	}
-	if name == "allkeys" {
-		// allkeys(k, m, body): body holds for every key k present in map m
+	if name == "allkeys" || name == "anykey" {
+		// allkeys(k, m, body) / anykey(k, m, body): body holds for every / some key k present in map m
 		if len(args) != 3 {
-			ps.fail("allkeys(k, m, body)")
+			ps.fail("%s(k, m, body)", name)
 		}
 		id, ok := args[0].(EIdent)
 		if !ok {
-			ps.fail("allkeys(k, m, body)")
+			ps.fail("%s(k, m, body)", name)
 		}
-		return EQuant{All: true, Var: id.Name, Lo: ECall{"$mapdom", []Expr{args[1]}}, Hi: nil, Body: args[2]}
+		return EQuant{All: name == "allkeys", Var: id.Name, Lo: ECall{"$mapdom", []Expr{args[1]}}, Hi: nil, Body: args[2]}
 	}
 	if name == "allobj" {
 		// allobj(x, "*T", body): body holds for every object reference x of type *T
@@ -459,7 +459,11 @@ func exprString(e Expr) string {
 			return fmt.Sprintf("allobj(%s, %q, %s)", x.Var, ts.V, exprString(x.Body))
 		}
 		if mc, ok := x.Lo.(ECall); ok && x.Hi == nil && mc.Fun == "$mapdom" {
-			return fmt.Sprintf("allkeys(%s, %s, %s)", x.Var, exprString(mc.Args[0]), exprString(x.Body))
+			n := "anykey"
+			if x.All {
+				n = "allkeys"
+			}
+			return fmt.Sprintf("%s(%s, %s, %s)", n, x.Var, exprString(mc.Args[0]), exprString(x.Body))
 		}
 		n := "any"
 		if x.All {
